@@ -35,9 +35,8 @@ Definition res_eqb (a b : res) : bool :=
   | _, _ => false
   end.
 
-(* released by rfbClientConnectionGone: everything except the file-transfer descriptor *)
-Definition gone_releases (fix_ftfd : bool) (r : res) : bool :=
-  match r with RFileFd => fix_ftfd | _ => true end.
+(* released by rfbClientConnectionGone: everything (the file-transfer descriptor since commit 4d56b95) *)
+Definition gone_releases (r : res) : bool := true.
 
 Fixpoint remove_one (r : res) (l : list res) : list res :=
   match l with
@@ -69,22 +68,18 @@ Record proto := mkProto {
   p_sendlock : bool;     (* sendMutex left locked *)
   p_wr : nat;            (* successful write() calls *)
   p_inq : list Z;        (* bytes sent by the peer, not yet read *)
-  p_peer : bool          (* peer end open *)
+  p_peer : bool;         (* peer end open *)
+  p_scaled : bool;       (* cl->scaledScreen != cl->screen *)
+  p_sw : Z; p_sh : Z     (* its size *)
 }.
 
 Record conn := mkConn { c_fd : Z; c_life : life; c_proto : proto; c_leak : list res }.
 
 Record config := mkConfig {
   g_w : Z; g_h : Z;
-  g_auth : bool; g_always : bool; g_never : bool; g_dontdisc : bool; g_xvp : bool; g_ft : bool;
-  (* switches for the four known defects of the lifecycle code (known_findings.d/C12.json): false =
-     the behaviour of the unchanged library, true = the behaviour with notes/fix_C12_<n>.diff applied.
-     The check sets them from what the implementation under test does on the four witness scripts. *)
-  g_fix_wlock : bool;     (* fix 1: rfbWriteExact unlocks outputMutex when sock == -1 *)
-  g_fix_ftfd : bool;      (* fix 2: fileTransfer.fd closed by rfbClientConnectionGone and before it is overwritten *)
-  g_fix_iter : bool;      (* fix 3: rfbShutdownServer / rfbScreenCleanup also visit closed, unreaped clients *)
-  g_fix_cut8 : bool       (* fix 4: rfbSendServerCutTextUTF8 unlocks sendMutex on every path *)
+  g_auth : bool; g_always : bool; g_never : bool; g_dontdisc : bool; g_xvp : bool; g_ft : bool
 }.
+
 
 Record screen := mkScreen {
   s_conns : list conn;       (* every connection ever accepted, index = connection id *)
@@ -100,36 +95,42 @@ Record screen := mkScreen {
   s_unmod : bool;            (* input outside the modelled fragment *)
   s_cleaned : bool;          (* rfbScreenCleanup done *)
   s_faults : list (nat * fault);
-  s_cfg : config
+  s_cfg : config;
+  s_scaled : list (Z * Z * Z);   (* screen->scaledScreenNext chain: width, height, scaledScreenRefCount *)
+  s_pending : list (decision * list Z * bool);   (* connections waiting on the listening socket *)
+  s_listening : bool
 }.
 
 (* ------------------------------------------------------------------ setters *)
-Definition set_conns v s := mkScreen v (s_order s) (s_allfds s) (s_maxfd s) (s_ref s) (s_ptr s) (s_ioc s) (s_bad s) (s_log s) (s_hung s) (s_unmod s) (s_cleaned s) (s_faults s) (s_cfg s).
-Definition set_order v s := mkScreen (s_conns s) v (s_allfds s) (s_maxfd s) (s_ref s) (s_ptr s) (s_ioc s) (s_bad s) (s_log s) (s_hung s) (s_unmod s) (s_cleaned s) (s_faults s) (s_cfg s).
-Definition set_fds v m s := mkScreen (s_conns s) (s_order s) v m (s_ref s) (s_ptr s) (s_ioc s) (s_bad s) (s_log s) (s_hung s) (s_unmod s) (s_cleaned s) (s_faults s) (s_cfg s).
-Definition set_ref v s := mkScreen (s_conns s) (s_order s) (s_allfds s) (s_maxfd s) v (s_ptr s) (s_ioc s) (s_bad s) (s_log s) (s_hung s) (s_unmod s) (s_cleaned s) (s_faults s) (s_cfg s).
-Definition set_ptr v s := mkScreen (s_conns s) (s_order s) (s_allfds s) (s_maxfd s) (s_ref s) v (s_ioc s) (s_bad s) (s_log s) (s_hung s) (s_unmod s) (s_cleaned s) (s_faults s) (s_cfg s).
-Definition set_ioc v s := mkScreen (s_conns s) (s_order s) (s_allfds s) (s_maxfd s) (s_ref s) (s_ptr s) v (s_bad s) (s_log s) (s_hung s) (s_unmod s) (s_cleaned s) (s_faults s) (s_cfg s).
-Definition set_bad v s := mkScreen (s_conns s) (s_order s) (s_allfds s) (s_maxfd s) (s_ref s) (s_ptr s) (s_ioc s) v (s_log s) (s_hung s) (s_unmod s) (s_cleaned s) (s_faults s) (s_cfg s).
-Definition set_log v s := mkScreen (s_conns s) (s_order s) (s_allfds s) (s_maxfd s) (s_ref s) (s_ptr s) (s_ioc s) (s_bad s) v (s_hung s) (s_unmod s) (s_cleaned s) (s_faults s) (s_cfg s).
-Definition set_hung v s := mkScreen (s_conns s) (s_order s) (s_allfds s) (s_maxfd s) (s_ref s) (s_ptr s) (s_ioc s) (s_bad s) (s_log s) v (s_unmod s) (s_cleaned s) (s_faults s) (s_cfg s).
-Definition set_unmod v s := mkScreen (s_conns s) (s_order s) (s_allfds s) (s_maxfd s) (s_ref s) (s_ptr s) (s_ioc s) (s_bad s) (s_log s) (s_hung s) v (s_cleaned s) (s_faults s) (s_cfg s).
-Definition set_cleaned v s := mkScreen (s_conns s) (s_order s) (s_allfds s) (s_maxfd s) (s_ref s) (s_ptr s) (s_ioc s) (s_bad s) (s_log s) (s_hung s) (s_unmod s) v (s_faults s) (s_cfg s).
-Definition set_faults v s := mkScreen (s_conns s) (s_order s) (s_allfds s) (s_maxfd s) (s_ref s) (s_ptr s) (s_ioc s) (s_bad s) (s_log s) (s_hung s) (s_unmod s) (s_cleaned s) v (s_cfg s).
-
-Definition pset_state v p := mkProto v (p_minor p) (p_hold p) (p_req p) (p_mod p) (p_enc p) (p_res p) (p_ftopen p) (p_outlock p) (p_sendlock p) (p_wr p) (p_inq p) (p_peer p).
-Definition pset_minor v p := mkProto (p_state p) v (p_hold p) (p_req p) (p_mod p) (p_enc p) (p_res p) (p_ftopen p) (p_outlock p) (p_sendlock p) (p_wr p) (p_inq p) (p_peer p).
-Definition pset_hold v p := mkProto (p_state p) (p_minor p) v (p_req p) (p_mod p) (p_enc p) (p_res p) (p_ftopen p) (p_outlock p) (p_sendlock p) (p_wr p) (p_inq p) (p_peer p).
-Definition pset_req v p := mkProto (p_state p) (p_minor p) (p_hold p) v (p_mod p) (p_enc p) (p_res p) (p_ftopen p) (p_outlock p) (p_sendlock p) (p_wr p) (p_inq p) (p_peer p).
-Definition pset_mod v p := mkProto (p_state p) (p_minor p) (p_hold p) (p_req p) v (p_enc p) (p_res p) (p_ftopen p) (p_outlock p) (p_sendlock p) (p_wr p) (p_inq p) (p_peer p).
-Definition pset_enc v p := mkProto (p_state p) (p_minor p) (p_hold p) (p_req p) (p_mod p) v (p_res p) (p_ftopen p) (p_outlock p) (p_sendlock p) (p_wr p) (p_inq p) (p_peer p).
-Definition pset_res v p := mkProto (p_state p) (p_minor p) (p_hold p) (p_req p) (p_mod p) (p_enc p) v (p_ftopen p) (p_outlock p) (p_sendlock p) (p_wr p) (p_inq p) (p_peer p).
-Definition pset_ftopen v p := mkProto (p_state p) (p_minor p) (p_hold p) (p_req p) (p_mod p) (p_enc p) (p_res p) v (p_outlock p) (p_sendlock p) (p_wr p) (p_inq p) (p_peer p).
-Definition pset_outlock v p := mkProto (p_state p) (p_minor p) (p_hold p) (p_req p) (p_mod p) (p_enc p) (p_res p) (p_ftopen p) v (p_sendlock p) (p_wr p) (p_inq p) (p_peer p).
-Definition pset_sendlock v p := mkProto (p_state p) (p_minor p) (p_hold p) (p_req p) (p_mod p) (p_enc p) (p_res p) (p_ftopen p) (p_outlock p) v (p_wr p) (p_inq p) (p_peer p).
-Definition pset_wr v p := mkProto (p_state p) (p_minor p) (p_hold p) (p_req p) (p_mod p) (p_enc p) (p_res p) (p_ftopen p) (p_outlock p) (p_sendlock p) v (p_inq p) (p_peer p).
-Definition pset_inq v p := mkProto (p_state p) (p_minor p) (p_hold p) (p_req p) (p_mod p) (p_enc p) (p_res p) (p_ftopen p) (p_outlock p) (p_sendlock p) (p_wr p) v (p_peer p).
-Definition pset_peer v p := mkProto (p_state p) (p_minor p) (p_hold p) (p_req p) (p_mod p) (p_enc p) (p_res p) (p_ftopen p) (p_outlock p) (p_sendlock p) (p_wr p) (p_inq p) v.
+Definition set_conns v s := mkScreen v (s_order s) (s_allfds s) (s_maxfd s) (s_ref s) (s_ptr s) (s_ioc s) (s_bad s) (s_log s) (s_hung s) (s_unmod s) (s_cleaned s) (s_faults s) (s_cfg s) (s_scaled s) (s_pending s) (s_listening s).
+Definition set_order v s := mkScreen (s_conns s) v (s_allfds s) (s_maxfd s) (s_ref s) (s_ptr s) (s_ioc s) (s_bad s) (s_log s) (s_hung s) (s_unmod s) (s_cleaned s) (s_faults s) (s_cfg s) (s_scaled s) (s_pending s) (s_listening s).
+Definition set_fds v m s := mkScreen (s_conns s) (s_order s) v m (s_ref s) (s_ptr s) (s_ioc s) (s_bad s) (s_log s) (s_hung s) (s_unmod s) (s_cleaned s) (s_faults s) (s_cfg s) (s_scaled s) (s_pending s) (s_listening s).
+Definition set_ref v s := mkScreen (s_conns s) (s_order s) (s_allfds s) (s_maxfd s) v (s_ptr s) (s_ioc s) (s_bad s) (s_log s) (s_hung s) (s_unmod s) (s_cleaned s) (s_faults s) (s_cfg s) (s_scaled s) (s_pending s) (s_listening s).
+Definition set_ptr v s := mkScreen (s_conns s) (s_order s) (s_allfds s) (s_maxfd s) (s_ref s) v (s_ioc s) (s_bad s) (s_log s) (s_hung s) (s_unmod s) (s_cleaned s) (s_faults s) (s_cfg s) (s_scaled s) (s_pending s) (s_listening s).
+Definition set_ioc v s := mkScreen (s_conns s) (s_order s) (s_allfds s) (s_maxfd s) (s_ref s) (s_ptr s) v (s_bad s) (s_log s) (s_hung s) (s_unmod s) (s_cleaned s) (s_faults s) (s_cfg s) (s_scaled s) (s_pending s) (s_listening s).
+Definition set_bad v s := mkScreen (s_conns s) (s_order s) (s_allfds s) (s_maxfd s) (s_ref s) (s_ptr s) (s_ioc s) v (s_log s) (s_hung s) (s_unmod s) (s_cleaned s) (s_faults s) (s_cfg s) (s_scaled s) (s_pending s) (s_listening s).
+Definition set_log v s := mkScreen (s_conns s) (s_order s) (s_allfds s) (s_maxfd s) (s_ref s) (s_ptr s) (s_ioc s) (s_bad s) v (s_hung s) (s_unmod s) (s_cleaned s) (s_faults s) (s_cfg s) (s_scaled s) (s_pending s) (s_listening s).
+Definition set_hung v s := mkScreen (s_conns s) (s_order s) (s_allfds s) (s_maxfd s) (s_ref s) (s_ptr s) (s_ioc s) (s_bad s) (s_log s) v (s_unmod s) (s_cleaned s) (s_faults s) (s_cfg s) (s_scaled s) (s_pending s) (s_listening s).
+Definition set_unmod v s := mkScreen (s_conns s) (s_order s) (s_allfds s) (s_maxfd s) (s_ref s) (s_ptr s) (s_ioc s) (s_bad s) (s_log s) (s_hung s) v (s_cleaned s) (s_faults s) (s_cfg s) (s_scaled s) (s_pending s) (s_listening s).
+Definition set_cleaned v s := mkScreen (s_conns s) (s_order s) (s_allfds s) (s_maxfd s) (s_ref s) (s_ptr s) (s_ioc s) (s_bad s) (s_log s) (s_hung s) (s_unmod s) v (s_faults s) (s_cfg s) (s_scaled s) (s_pending s) (s_listening s).
+Definition set_faults v s := mkScreen (s_conns s) (s_order s) (s_allfds s) (s_maxfd s) (s_ref s) (s_ptr s) (s_ioc s) (s_bad s) (s_log s) (s_hung s) (s_unmod s) (s_cleaned s) v (s_cfg s) (s_scaled s) (s_pending s) (s_listening s).
+Definition set_scaled v s := mkScreen (s_conns s) (s_order s) (s_allfds s) (s_maxfd s) (s_ref s) (s_ptr s) (s_ioc s) (s_bad s) (s_log s) (s_hung s) (s_unmod s) (s_cleaned s) (s_faults s) (s_cfg s) v (s_pending s) (s_listening s).
+Definition set_pending v s := mkScreen (s_conns s) (s_order s) (s_allfds s) (s_maxfd s) (s_ref s) (s_ptr s) (s_ioc s) (s_bad s) (s_log s) (s_hung s) (s_unmod s) (s_cleaned s) (s_faults s) (s_cfg s) (s_scaled s) v (s_listening s).
+Definition set_listening v s := mkScreen (s_conns s) (s_order s) (s_allfds s) (s_maxfd s) (s_ref s) (s_ptr s) (s_ioc s) (s_bad s) (s_log s) (s_hung s) (s_unmod s) (s_cleaned s) (s_faults s) (s_cfg s) (s_scaled s) (s_pending s) v.
+Definition pset_state v p := mkProto v (p_minor p) (p_hold p) (p_req p) (p_mod p) (p_enc p) (p_res p) (p_ftopen p) (p_outlock p) (p_sendlock p) (p_wr p) (p_inq p) (p_peer p) (p_scaled p) (p_sw p) (p_sh p).
+Definition pset_minor v p := mkProto (p_state p) v (p_hold p) (p_req p) (p_mod p) (p_enc p) (p_res p) (p_ftopen p) (p_outlock p) (p_sendlock p) (p_wr p) (p_inq p) (p_peer p) (p_scaled p) (p_sw p) (p_sh p).
+Definition pset_hold v p := mkProto (p_state p) (p_minor p) v (p_req p) (p_mod p) (p_enc p) (p_res p) (p_ftopen p) (p_outlock p) (p_sendlock p) (p_wr p) (p_inq p) (p_peer p) (p_scaled p) (p_sw p) (p_sh p).
+Definition pset_req v p := mkProto (p_state p) (p_minor p) (p_hold p) v (p_mod p) (p_enc p) (p_res p) (p_ftopen p) (p_outlock p) (p_sendlock p) (p_wr p) (p_inq p) (p_peer p) (p_scaled p) (p_sw p) (p_sh p).
+Definition pset_mod v p := mkProto (p_state p) (p_minor p) (p_hold p) (p_req p) v (p_enc p) (p_res p) (p_ftopen p) (p_outlock p) (p_sendlock p) (p_wr p) (p_inq p) (p_peer p) (p_scaled p) (p_sw p) (p_sh p).
+Definition pset_enc v p := mkProto (p_state p) (p_minor p) (p_hold p) (p_req p) (p_mod p) v (p_res p) (p_ftopen p) (p_outlock p) (p_sendlock p) (p_wr p) (p_inq p) (p_peer p) (p_scaled p) (p_sw p) (p_sh p).
+Definition pset_res v p := mkProto (p_state p) (p_minor p) (p_hold p) (p_req p) (p_mod p) (p_enc p) v (p_ftopen p) (p_outlock p) (p_sendlock p) (p_wr p) (p_inq p) (p_peer p) (p_scaled p) (p_sw p) (p_sh p).
+Definition pset_ftopen v p := mkProto (p_state p) (p_minor p) (p_hold p) (p_req p) (p_mod p) (p_enc p) (p_res p) v (p_outlock p) (p_sendlock p) (p_wr p) (p_inq p) (p_peer p) (p_scaled p) (p_sw p) (p_sh p).
+Definition pset_outlock v p := mkProto (p_state p) (p_minor p) (p_hold p) (p_req p) (p_mod p) (p_enc p) (p_res p) (p_ftopen p) v (p_sendlock p) (p_wr p) (p_inq p) (p_peer p) (p_scaled p) (p_sw p) (p_sh p).
+Definition pset_sendlock v p := mkProto (p_state p) (p_minor p) (p_hold p) (p_req p) (p_mod p) (p_enc p) (p_res p) (p_ftopen p) (p_outlock p) v (p_wr p) (p_inq p) (p_peer p) (p_scaled p) (p_sw p) (p_sh p).
+Definition pset_wr v p := mkProto (p_state p) (p_minor p) (p_hold p) (p_req p) (p_mod p) (p_enc p) (p_res p) (p_ftopen p) (p_outlock p) (p_sendlock p) v (p_inq p) (p_peer p) (p_scaled p) (p_sw p) (p_sh p).
+Definition pset_inq v p := mkProto (p_state p) (p_minor p) (p_hold p) (p_req p) (p_mod p) (p_enc p) (p_res p) (p_ftopen p) (p_outlock p) (p_sendlock p) (p_wr p) v (p_peer p) (p_scaled p) (p_sw p) (p_sh p).
+Definition pset_peer v p := mkProto (p_state p) (p_minor p) (p_hold p) (p_req p) (p_mod p) (p_enc p) (p_res p) (p_ftopen p) (p_outlock p) (p_sendlock p) (p_wr p) (p_inq p) v (p_scaled p) (p_sw p) (p_sh p).
+Definition pset_scale (b : bool) (w h : Z) p := mkProto (p_state p) (p_minor p) (p_hold p) (p_req p) (p_mod p) (p_enc p) (p_res p) (p_ftopen p) (p_outlock p) (p_sendlock p) (p_wr p) (p_inq p) (p_peer p) b w h.
 
 (* ------------------------------------------------------------------ access to connection records *)
 Fixpoint upd_nth {A} (k : nat) (f : A -> A) (l : list A) : list A :=
@@ -158,6 +159,7 @@ Definition is_open (s : screen) (k : nat) : bool :=
   match live s k with Some c => l_open (c_life c) | None => false end.
 
 Definition FDBASE : Z := 200.
+Definition LISTEN_FD : Z := 190.      (* the harness' listening descriptor *)
 Definition fd_of (k : nat) : Z := FDBASE + 2 * Z.of_nat k.
 
 Fixpoint remove_fd (fd : Z) (l : list Z) : list Z :=
@@ -197,6 +199,18 @@ Definition close_client (k : nat) (s : screen) : screen :=
       s
   end.
 
+(* ------------------------------------------------------------------ scaled screens (scale.c) *)
+Fixpoint adj_scaled (w h d : Z) (l : list (Z * Z * Z)) : list (Z * Z * Z) :=
+  match l with
+  | [] => []
+  | (w0, h0, r) :: t => if (w0 =? w) && (h0 =? h) then (w0, h0, r + d) :: t else (w0, h0, r) :: adj_scaled w h d t
+  end.
+Definition has_scaled (w h : Z) (l : list (Z * Z * Z)) : bool :=
+  existsb (fun e => match e with (w0, h0, _) => (w0 =? w) && (h0 =? h) end) l.
+(* cl->scaledScreen->scaledScreenRefCount += d *)
+Definition adj_ref (p : proto) (d : Z) (s : screen) : screen :=
+  if p_scaled p then set_scaled (adj_scaled (p_sw p) (p_sh p) d (s_scaled s)) s else set_ref (s_ref s + d) s.
+
 (* ------------------------------------------------------------------ rfbClientConnectionGone *)
 (* with fix 2: close(cl->fileTransfer.fd) right after the socket, i.e. before the mutexes are taken *)
 Fixpoint drop_all_ft (l : list res) : list res :=
@@ -221,7 +235,7 @@ Definition connection_gone (k : nat) (s : screen) : screen :=
     (* rfbCloseSocket(cl->sock) has set cl->sock = -1, so the later
        "if (cl->sock != RFB_INVALID_SOCKET) FD_CLR(...)" never runs: allFds keeps the descriptor *)
     let fds := s_allfds s in
-    let s1 := set_log log2 (set_fds fds (s_maxfd s) (set_ref (s_ref s - 1) (set_order (remove_id k (s_order s)) s))) in
+    let s1 := set_log log2 (set_fds fds (s_maxfd s) (adj_ref p (-1) (set_order (remove_id k (s_order s)) s))) in
     let s2 := match s_ptr s1 with
               | Some j => if Nat.eqb j k then set_ptr None s1 else s1
               | None => s1
@@ -230,10 +244,10 @@ Definition connection_gone (k : nat) (s : screen) : screen :=
       (* LOCK(cl->outputMutex) / LOCK(cl->sendMutex) on a mutex that is still held: never returns.
          The close and the hook have already happened (log); nothing else is observable any more,
          so the rest of the state is left as it was. *)
-      set_hung true (set_log log2 (if g_fix_ftfd (s_cfg s) then updp k drop_ft s else s))
+      set_hung true (set_log log2 (updp k drop_ft s))
     else
       let c' := mkConn (c_fd c) (gone_life hooked l) (pset_res [] p)
-                       (filter (fun r => negb (gone_releases (g_fix_ftfd (s_cfg s)) r)) (p_res p)) in
+                       (filter (fun r => negb (gone_releases r)) (p_res p)) in
       set_conns (upd_nth k (fun _ => c') (s_conns s2)) s2
   end.
 
@@ -252,8 +266,8 @@ Definition write_exact (k : nat) (s : screen) : bool * screen :=
     let p := c_proto c in
     if p_outlock p then (false, set_hung true s)               (* LOCK(outputMutex) while held *)
     else if negb (l_open (c_life c)) then
-      (* sock == -1: errno = EBADF; return -1 -- without UNLOCK(cl->outputMutex) *)
-      (false, if g_fix_wlock (s_cfg s) then s else updp k (pset_outlock true) s)
+      (* sock == -1: errno = EBADF; UNLOCK(cl->outputMutex); return -1  (commit b4cfd8a) *)
+      (false, s)
     else
       let i := s_ioc s in
       let s1 := set_ioc (S i) s in
@@ -374,6 +388,15 @@ Definition parse_version (b : list Z) : option (Z * Z) :=
   end.
 
 Definition zn (z : Z) : nat := Z.to_nat z.
+
+(* a length field taken from the wire, as a number of bytes to read: anything beyond what the peer
+   has sent behaves like "one byte more than available" (keeps the computation small) *)
+Definition zlen (s : screen) (k : nat) (len : Z) : nat :=
+  match live s k with
+  | Some c => let have := length (p_inq (c_proto c)) in
+              if len <=? Z.of_nat have then Z.to_nat len else S have
+  | None => O
+  end.
 
 (* ------------------------------------------------------------------ handshake *)
 Definition set_state (k : nat) (st : pstate) (s : screen) : screen := updp k (pset_state st) s.
@@ -506,10 +529,15 @@ Definition process_setenc (k : nat) (cur : Z) (s : screen) : screen :=
   | (_, s1) => close_client k s1
   end.
 
+(* the size of the framebuffer this client sees *)
+Definition client_dims (cfg : config) (p : proto) : Z * Z :=
+  if p_scaled p then (p_sw p, p_sh p) else (g_w cfg, g_h cfg).
+
 Definition process_fur (k : nat) (s : screen) : screen :=
   match read_exact k (zn (c12_sz_fur - 1)) s with
   | (Some [incr; xh; xl; yh; yl; wh; wl; hh; hl], s1) =>
-    let full := (be16 xh xl =? 0) && (be16 yh yl =? 0) && (be16 wh wl =? g_w (s_cfg s)) && (be16 hh hl =? g_h (s_cfg s)) in
+    let '(cw, ch) := match live s k with Some c => client_dims (s_cfg s) (c_proto c) | None => (0, 0) end in
+    let full := (be16 xh xl =? 0) && (be16 yh yl =? 0) && (be16 wh wl =? cw) && (be16 hh hl =? ch) in
     let s2 := if full then s1 else set_unmod true s1 in
     updp k (fun p => pset_req true (if incr =? 0 then pset_mod true p else p)) s2
   | (_, s1) => close_client k s1
@@ -522,14 +550,14 @@ Definition process_key (k : nat) (s : screen) : screen :=
   | (_, s1) => close_client k s1
   end.
 
-(* ptrAddEvent hook: mask 0x55 at (7,7) = rfbCloseClient(cl) *)
+(* ptrAddEvent hook: button mask 0x55 = rfbCloseClient(cl) (the coordinates reach the hook scaled) *)
 Definition process_ptr (k : nat) (s : screen) : screen :=
   match read_exact k (zn (c12_sz_ptr - 1)) s with
   | (Some [m; xh; xl; yh; yl], s1) =>
     let other := match s_ptr s1 with Some j => negb (Nat.eqb j k) | None => false end in
     if other then s1 else
     let s2 := set_ptr (if m =? 0 then None else Some k) s1 in
-    if (m =? 85) && (be16 xh xl =? 7) && (be16 yh yl =? 7) then close_client k s2 else s2
+    if m =? 85 then close_client k s2 else s2
   | (_, s1) => close_client k s1
   end.
 
@@ -539,7 +567,7 @@ Definition process_cut (k : nat) (s : screen) : screen :=
   | (Some [_; _; _; a; b; c; d], s1) =>
     let len := be32 a b c d in
     if c12_cut_limit <? len then close_client k s1 else
-    match read_exact k (zn len) s1 with
+    match read_exact k (zlen s1 k len) s1 with
     | (Some txt, s2) => match txt with x :: _ => if x =? 88 then close_client k s2 else s2 | [] => s2 end
     | (None, s2) => close_client k s2
     end
@@ -556,6 +584,37 @@ Definition process_xvp (k : nat) (s : screen) : screen :=
       let s2 := if (code =? 4) || (code =? 5) then close_client k s1 else s1 in
       if (code =? 2) || (code =? 5) then s2 else send_xvp k s2
     else s1
+  | (_, s1) => close_client k s1
+  end.
+
+(* rfbScalingSetup(cl, w, h): rfbScalingFind (the unscaled screen first, then the chain),
+   rfbScaledScreenAllocate (refuses a zero dimension), move the reference *)
+Definition scaling_setup (k : nat) (sw sh : Z) (s : screen) : screen :=
+  match live s k with
+  | None => s
+  | Some c =>
+    let p := c_proto c in
+    if (sw =? g_w (s_cfg s)) && (sh =? g_h (s_cfg s)) then
+      let s1 := adj_ref p (-1) s in
+      updp k (pset_scale false 0 0) (set_ref (s_ref s1 + 1) s1)
+    else
+      let found := has_scaled sw sh (s_scaled s) in
+      if negb found && ((sw =? 0) || (sh =? 0)) then s                 (* "Scaling failed, leaving things alone" *)
+      else
+        let s0 := if found then s else set_scaled ((sw, sh, 0) :: s_scaled s) s in
+        let s1 := adj_ref p (-1) s0 in
+        updp k (pset_scale true sw sh) (set_scaled (adj_scaled sw sh 1 (s_scaled s1)) s1)
+  end.
+
+(* rfbSetScale / rfbPalmVNCSetScaleFactor, then rfbSendNewScaleSize (one message, the client has
+   not asked for NewFBSize in the modelled fragment) *)
+Definition process_setscale (k : nat) (s : screen) : screen :=
+  match read_exact k (zn (c12_sz_setscale - 1)) s with
+  | (Some [sc; _; _], s1) =>
+    if sc =? 0 then close_client k s1
+    else
+      let s2 := scaling_setup k (g_w (s_cfg s) / sc) (g_h (s_cfg s) / sc) s1 in
+      snd (write_or_close k (lock_send k s2))
   | (_, s1) => close_client k s1
   end.
 
@@ -588,16 +647,15 @@ Definition process_ft (k : nat) (s : screen) : screen :=
     if ct =? c12_ft_request then
       if 2147483647 <? len then close_client k sa else
       if len =? 0 then sa else
-      match read_exact k (zn len) sa with
+      match read_exact k (zlen sa k len) sa with
       | (Some name, sb) =>
         if 259 <? len then set_unmod true sb else
         (* rfbFilenameTranslate2UNIX checks the permission once more *)
         if g_ft (s_cfg sb) then
         if list_eqb name existing_file then
           (* open() succeeded: the descriptor is stored, an earlier one is overwritten *)
-          let sb' := if g_fix_ftfd (s_cfg sb)
-                     then updp k (fun p => if p_ftopen p then pset_ftopen false (pset_res (remove_one RFileFd (p_res p)) p) else p) sb
-                     else sb in
+          (* a transfer in progress is closed first (commit 4d56b95) *)
+          let sb' := updp k (fun p => if p_ftopen p then pset_ftopen false (pset_res (remove_one RFileFd (p_res p)) p) else p) sb in
           let sc := updp k (fun p => pset_ftopen true (pset_res (RFileFd :: p_res p) p)) sb' in
           let sd := send_ft_message k true sc in
           (* fileTransfer.fd != -1: LOCK(sendMutex); rfbWriteExact(sizeHtmp) *)
@@ -606,9 +664,7 @@ Definition process_ft (k : nat) (s : screen) : screen :=
         else if list_eqb name missing_file then
           (* open() failed: fileTransfer.fd = -1, a descriptor stored earlier is forgotten (still open) *)
           send_ft_message k true
-            (if g_fix_ftfd (s_cfg sb)
-             then updp k (fun p => if p_ftopen p then pset_ftopen false (pset_res (remove_one RFileFd (p_res p)) p) else p) sb
-             else updp k (pset_ftopen false) sb)
+            (updp k (fun p => if p_ftopen p then pset_ftopen false (pset_res (remove_one RFileFd (p_res p)) p) else p) sb)
         else set_unmod true sb                                    (* the model does not know this file *)
         else close_client k sb
       | (None, sb) => close_client k sb
@@ -642,11 +698,9 @@ Definition process_ft (k : nat) (s : screen) : screen :=
    mirrored (a truncated message closes the client exactly like the modelled ones) *)
 Definition unmodelled_size (t : Z) : option Z :=
   if t =? c12_msg_setpixfmt then Some c12_sz_setpixfmt
-  else if t =? c12_msg_setscale then Some c12_sz_setscale
   else if t =? c12_msg_setserverinput then Some c12_sz_setserverinput
   else if t =? c12_msg_setsw then Some c12_sz_setsw
   else if t =? c12_msg_textchat then Some c12_sz_textchat
-  else if t =? c12_msg_palmscale then Some c12_sz_palmscale
   else if t =? c12_msg_setdesktopsize then Some c12_sz_setdesktopsize
   else None.
 
@@ -660,6 +714,7 @@ Definition process_normal (k : nat) (cur_enc : Z) (s : screen) : screen :=
     else if t =? c12_msg_cut then process_cut k s1
     else if t =? c12_msg_xvp then process_xvp k s1
     else if t =? c12_msg_filetransfer then process_ft k s1
+    else if (t =? c12_msg_setscale) || (t =? c12_msg_palmscale) then process_setscale k s1
     else if t =? c12_msg_fixcmap then
       match read_exact k (zn (c12_sz_fixcmap - 1)) s1 with (_, s2) => close_client k s2 end
     else match unmodelled_size t with
@@ -715,8 +770,7 @@ Definition send_update (k : nat) (s : screen) : screen :=
   match live s k with
   | None => s
   | Some c =>
-    let w := g_w (s_cfg s) in
-    let h := g_h (s_cfg s) in
+    let '(w, h) := client_dims (s_cfg s) (c_proto c) in
     let enc := p_enc (c_proto c) in
     let s0 := updp k (fun p => pset_req false (pset_mod false p)) s in
     (* rfbSendOneRectEncodingZlib allocates beforeEncBuf before looking at the rectangle size *)
@@ -746,72 +800,11 @@ Definition update_client (k : nat) (s : screen) : screen :=
   | None => s
   end.
 
-(* ------------------------------------------------------------------ event loop *)
-Definition readable (s : screen) (k : nat) : bool :=
-  match live s k with
-  | Some c => l_open (c_life c) && (negb (p_peer (c_proto c)) || match p_inq (c_proto c) with [] => false | _ => true end)
-  | None => false
-  end.
-
-(* rfbCheckFds: one select(), then at most one message per readable client *)
-Definition check_fds (s : screen) : screen :=
-  let rd := filter (readable s) (s_order s) in
-  match rd with
-  | [] => s
-  | _ =>
-    fold_left (fun s k =>
-      match live s k with
-      | Some c =>
-        if l_open (c_life c) && negb (p_hold (c_proto c)) && existsb (Nat.eqb k) rd
-        then process_message k s else s
-      | None => s
-      end) (s_order s) s
-  end.
-
-(* the second half of rfbProcessEvents: update every client, reap the closed ones *)
-Definition reap_one (s : screen) (k : nat) : screen :=
-  let s1 := update_client k s in
-  match live s1 k with
-  | Some c => if l_open (c_life c) then s1 else connection_gone k s1
-  | None => s1
-  end.
-
-Definition process_events (s : screen) : screen :=
-  let s1 := check_fds s in
-  fold_left reap_one (s_order s1) s1.
-
-(* rfbShutdownServer(screen, TRUE): the iterator skips clients whose socket is already -1 *)
-Definition shutdown_one (s : screen) (k : nat) : screen :=
-  if is_open s k then connection_gone k (close_client k s)
-  else if g_fix_iter (s_cfg s) then connection_gone k s else s.
-Definition shutdown_server (s : screen) : screen := fold_left shutdown_one (s_order s) s.
-
-(* rfbScreenCleanup: same iterator *)
-Definition cleanup_one (s : screen) (k : nat) : screen :=
-  if is_open s k || g_fix_iter (s_cfg s) then connection_gone k s else s.
-Definition screen_cleanup (s : screen) : screen :=
-  set_cleaned true (fold_left cleanup_one (s_order s) s).
-
-(* ------------------------------------------------------------------ server-initiated messages *)
-Definition bell_one (s : screen) (k : nat) : screen :=
-  if is_open s k then snd (write_or_close k (lock_send k s)) else s.
-Definition cuttext_one (s : screen) (k : nat) : screen :=
-  if is_open s k then
-    let '(ok, s1) := write_or_close k (lock_send k s) in
-    if ok then snd (write_or_close k s1) else s1
-  else s.
-(* rfbSendServerCutTextUTF8 with fallbackLatin1Str == NULL to a client without the extended
-   clipboard: LOCK(cl->sendMutex) and no UNLOCK on that path *)
-Definition cuttext8_one (s : screen) (k : nat) : screen :=
-  if is_open s k && negb (g_fix_cut8 (s_cfg s)) then updp k (pset_sendlock true) (lock_send k s) else s.
-Definition mark_one (s : screen) (k : nat) : screen :=
-  if is_open s k then updp k (pset_mod true) s else s.
-
 (* ------------------------------------------------------------------ accepting a connection *)
 Definition new_conn (k : nat) (pre : list Z) (peer_open : bool) : conn :=
   mkConn (fd_of k) (mkLife false true 0 0 0)
          (mkProto PVersion 0 false false true (-1) [RRec; RScaledRef; RHost; RFd; RFdSet; RRegions; RListed]
-                  false false false 0 pre peer_open) [].
+                  false false false 0 pre peer_open false 0 0) [].
 
 Definition hook_life (l : life) : life := mkLife (l_freed l) (l_open l) (S (l_new l)) (l_gone l) (l_close l).
 
@@ -846,9 +839,80 @@ Definition accept (d : decision) (pre : list Z) (peer_open : bool) (s : screen) 
     end
   end.
 
+(* ------------------------------------------------------------------ event loop *)
+Definition readable (s : screen) (k : nat) : bool :=
+  match live s k with
+  | Some c => l_open (c_life c) && (negb (p_peer (c_proto c)) || match p_inq (c_proto c) with [] => false | _ => true end)
+  | None => false
+  end.
+
+(* rfbCheckFds: one select(); a connection waiting on the listening socket is accepted first
+   (rfbProcessNewConnection -> rfbNewConnectionFromSock -> rfbNewClient, one per call); then at most
+   one message per readable client *)
+Definition client_loop (rd : list nat) (s : screen) : screen :=
+  fold_left (fun s k =>
+    match live s k with
+    | Some c =>
+      if l_open (c_life c) && negb (p_hold (c_proto c)) && existsb (Nat.eqb k) rd
+      then process_message k s else s
+    | None => s
+    end) (s_order s) s.
+
+Definition check_fds (s : screen) : screen :=
+  let rd := filter (readable s) (s_order s) in
+  match (if s_listening s then s_pending s else []) with
+  | (d, pre, po) :: rest =>
+    let s1 := accept d pre po (set_pending rest s) in
+    match rd with [] => s1 | _ => client_loop rd s1 end
+  | [] =>
+    match rd with [] => s | _ => client_loop rd s end
+  end.
+
+(* the second half of rfbProcessEvents: update every client, reap the closed ones *)
+Definition reap_one (s : screen) (k : nat) : screen :=
+  let s1 := update_client k s in
+  match live s1 k with
+  | Some c => if l_open (c_life c) then s1 else connection_gone k s1
+  | None => s1
+  end.
+
+Definition process_events (s : screen) : screen :=
+  let s1 := check_fds s in
+  fold_left reap_one (s_order s1) s1.
+
+(* rfbShutdownServer(screen, TRUE): iterates with closed clients too (commit 8cd7191) *)
+Definition shutdown_one (s : screen) (k : nat) : screen :=
+  if is_open s k then connection_gone k (close_client k s) else connection_gone k s.
+Definition shutdown_server (s : screen) : screen :=
+  let s1 := fold_left shutdown_one (s_order s) s in
+  (* rfbShutdownSockets: FD_CLR(listenSock), close, listenSock = -1 *)
+  if s_listening s1 then set_listening false (set_fds (remove_fd LISTEN_FD (s_allfds s1)) (s_maxfd s1) s1) else s1.
+
+(* rfbScreenCleanup: same iterator *)
+Definition cleanup_one (s : screen) (k : nat) : screen :=
+  connection_gone k s.
+Definition screen_cleanup (s : screen) : screen :=
+  set_cleaned true (fold_left cleanup_one (s_order s) s).
+
+(* ------------------------------------------------------------------ server-initiated messages *)
+Definition bell_one (s : screen) (k : nat) : screen :=
+  if is_open s k then snd (write_or_close k (lock_send k s)) else s.
+Definition cuttext_one (s : screen) (k : nat) : screen :=
+  if is_open s k then
+    let '(ok, s1) := write_or_close k (lock_send k s) in
+    if ok then snd (write_or_close k s1) else s1
+  else s.
+(* rfbSendServerCutTextUTF8 with fallbackLatin1Str == NULL to a client without the extended
+   clipboard: LOCK(cl->sendMutex); nothing to send; UNLOCK (commit 3fe86ea) *)
+Definition cuttext8_one (s : screen) (k : nat) : screen :=
+  if is_open s k then lock_send k s else s.
+Definition mark_one (s : screen) (k : nat) : screen :=
+  if is_open s k then updp k (pset_mod true) s else s.
+
 (* ------------------------------------------------------------------ operations *)
 Inductive op :=
   | OAccept (d : decision) (pre : list Z) (peer_open : bool)
+  | OLAccept (d : decision) (pre : list Z) (peer_open : bool)     (* a peer connects to the listening socket *)
   | OIn (k : nat) (bytes : list Z)
   | OPeerClose (k : nat)
   | OPe
@@ -864,6 +928,7 @@ Definition step (s : screen) (o : op) : screen :=
   if s_hung s || s_cleaned s then s else
   match o with
   | OAccept d pre po => accept d pre po s
+  | OLAccept d pre po => set_pending (s_pending s ++ [(d, pre, po)]) s
   | OIn k b => updp k (fun p => if p_peer p then pset_inq (p_inq p ++ b) p else p) s
   | OPeerClose k => updp k (pset_peer false) s
   | OPe => process_events s
@@ -881,7 +946,7 @@ Definition step (s : screen) (o : op) : screen :=
   end.
 
 Definition init (cfg : config) : screen :=
-  mkScreen [] [] [] 0 0 None 0 0 [] false false false [] cfg.
+  mkScreen [] [] [LISTEN_FD] LISTEN_FD 0 None 0 0 [] false false false [] cfg [] [] true.
 
 Definition run (cfg : config) (ops : list op) : screen := fold_left step ops (init cfg).
 
